@@ -1213,7 +1213,15 @@ fn step_node<C: HCfg>(
             let handles = scn.peers[ni].locals.clone();
             let alloc_base = crate::alloc::begin(usize::MAX);
             let r = catch_unwind(AssertUnwindSafe(|| {
-                for h in &handles {
+                let style = scn.peers[ni].input_style;
+                let mut order = handles.clone();
+                if style == 1 {
+                    order.reverse();
+                }
+                for h in &order {
+                    if style == 2 {
+                        s.add_local_input(*h, scn.program.value(*h, f) ^ 0x5A).expect("add_local_input for a local handle");
+                    }
                     s.add_local_input(*h, scn.program.value(*h, f)).expect("add_local_input for a local handle");
                 }
                 if use_wait {
